@@ -411,6 +411,11 @@ def specs(tier):
             yield Call("frelon_lines", [A(img, "io"), I(shp[0]), I(shp[1]), F(4.0)], ret="v")
             yield Call("frelon_lines_sub", [A(img, "io"), A(img * 0.1, "in"), I(shp[0]), I(shp[1]), F(4.0)], ret="v")
             yield Call("bgcalc", [A(img), A(np.zeros(shp, np.float32), "out"), A(np.zeros(shp, np.uint8), "out"), I(shp[0]), I(shp[1]), F(1.0), F(0.5), F(3.0)], ret="v")
+            # only the first line has pixels below the cut: every other line (whichever thread gets it) falls back on the start value
+            bright = np.full(shp, 50.0, np.float32)
+            bright[0] = np.arange(shp[1], dtype=np.float32) % 3 + 1
+            yield Call("frelon_lines", [A(bright, "io"), I(shp[0]), I(shp[1]), F(4.0)], ret="v")
+            yield Call("frelon_lines_sub", [A(bright, "io"), A(bright * 0.1, "in"), I(shp[0]), I(shp[1]), F(4.0)], ret="v")
             ns, nf = shp
             # destination = a0[row] + running sum of a1[row, :]: rows written backwards (first) and forwards (second); a bijection
             for a0, step in (((np.arange(ns, dtype=np.uint32)[::-1] * nf + nf - 1).copy(), -1), ((np.arange(ns, dtype=np.uint32) * nf).copy(), 1)):
